@@ -39,6 +39,49 @@ FILE[dyna2_batch_on_permanent]=include/AIToolbox/MDP/Algorithms/Dyna2.hpp
 SED[dyna2_batch_on_permanent]='s|^            transientLearning_.stepUpdateQ(s, a, s1, a1, rew);|            permanentLearning_.stepUpdateQ(s, a, s1, a1, rew);|'
 FILE[ps_generic_discounts_reward]=include/AIToolbox/MDP/Algorithms/PrioritizedSweeping.hpp
 SED[ps_generic_discounts_reward]='s|probability \* ( model_.getExpectedReward(s,a,s1) + model_.getDiscount() \* values\[s1\] );|probability * model_.getDiscount() * ( model_.getExpectedReward(s,a,s1) + values[s1] );|'
+# ---- round 3: helpers OUTSIDE the anchored files and cooperating sites
+FILE[eps_weights_swapped]=include/AIToolbox/EpsilonPolicyInterface.hpp
+SED[eps_weights_swapped]='136s|return (1.0 - epsilon_) \* policy_.getActionProbability(s,a) + epsilon_ \* getRandomActionProbability();|return epsilon_ * policy_.getActionProbability(s,a) + (1.0 - epsilon_) * getRandomActionProbability();|'
+FILE[greedy_exact_ties_only]=include/AIToolbox/Bandit/Policies/Utils/QGreedyPolicyWrapper.hpp
+SED[greedy_exact_ties_only]='/getActionProbability(const size_t a) const {/,/^    }/s|if ( checkEqualGeneral(val, max) ) ++count;|if ( val == max ) ++count;|'
+FILE[model_sampleSR_reward_of_next]=src/MDP/Model.cpp
+SED[model_sampleSR_reward_of_next]='s|return std::make_tuple(s1, rewards_(s, a));|return std::make_tuple(s1, rewards_(s1, a));|'
+FILE[sparse_sampleSR_reward_of_next]=src/MDP/SparseModel.cpp
+SED[sparse_sampleSR_reward_of_next]='s|return std::make_tuple(s1, getExpectedReward(s, a, s1));|return std::make_tuple(s1, getExpectedReward(s1, a, s));|'
+FILE[sarsal_setTraces_appends]=src/MDP/Algorithms/SARSAL.cpp
+SED[sarsal_setTraces_appends]='/void SARSAL::setTraces/,/^    }/s|traces_ = t;|traces_.insert(traces_.end(), t.begin(), t.end());|'
+FILE[offpolicy_setTraces_appends]=src/MDP/Algorithms/Utils/OffPolicyTemplate.cpp
+SED[offpolicy_setTraces_appends]='/void OffPolicyBase::setTraces/,/^    }/s|traces_ = t;|traces_.insert(traces_.end(), t.begin(), t.end());|'
+FILE[sarsal_setDiscount_stale_gammaL]=src/MDP/Algorithms/SARSAL.cpp
+SED[sarsal_setDiscount_stale_gammaL]='/void SARSAL::setDiscount/,/^    }/s|gammaL_ = lambda_ \* discount_;|;|'
+FILE[ql_setDiscount_not_stored]=src/MDP/Algorithms/QLearning.cpp
+SED[ql_setDiscount_not_stored]='/void QLearning::setDiscount/,/^    }/s|discount_ = d;|;|'
+FILE[model_isTerminal_skips_action0]=src/MDP/Model.cpp
+SED[model_isTerminal_skips_action0]='/bool Model::isTerminal/,/^    }/s|for ( size_t a = 0; a < A; ++a )|for ( size_t a = 1; a < A; ++a )|'
+FILE[ps_setQFunction_resets_values]=include/AIToolbox/MDP/Algorithms/PrioritizedSweeping.hpp
+SED[ps_setQFunction_resets_values]='s|^        qfun_ = qfun;|        qfun_ = qfun; vfun_.values = qfun_.rowwise().maxCoeff();|'
+FILE[core_general_drops_small]=include/AIToolbox/Utils/Core.hpp
+SED[core_general_drops_small]='s|if ( checkEqualSmall(a,b) ) return true;|if ( a == b ) return true;|'
+FILE[sarsa_optimistic_init]=src/MDP/Algorithms/SARSA.cpp
+SED[sarsa_optimistic_init]='s|q_(makeQFunction(S, A))|q_(QFunction::Ones(S, A))|'
+TEST[sarsa_optimistic_init]="MDP/SARSATests"
+FILE[mlm_first_visit_keeps_selfloop]=include/AIToolbox/MDP/MaximumLikelihoodModel.hpp
+SED[mlm_first_visit_keeps_selfloop]='s|^            transitions_\[a\].row(s).setZero();|            ;|'
+TEST[mlm_first_visit_keeps_selfloop]="MDP/MaximumLikelihoodModelTests MDP/PrioritizedSweepingTests"
+FILE[mlm_sync_reward_not_refreshed]=include/AIToolbox/MDP/MaximumLikelihoodModel.hpp
+SED[mlm_sync_reward_not_refreshed]='/::sync(const size_t s, const size_t a, const size_t s1) {/,/^    }/s|rewards_(s, a) = experience_.getReward(s, a);|;|'
+TEST[mlm_sync_reward_not_refreshed]="MDP/MaximumLikelihoodModelTests MDP/PrioritizedSweepingTests"
+TEST[eps_weights_swapped]="MDP/QGreedyPolicyTests MDP/ExpectedSARSATests MDP/RetraceLTests"
+TEST[greedy_exact_ties_only]="MDP/QGreedyPolicyTests MDP/ExpectedSARSATests"
+TEST[model_sampleSR_reward_of_next]="MDP/ModelTests MDP/DynaQTests MDP/Dyna2Tests"
+TEST[sparse_sampleSR_reward_of_next]="MDP/SparseModelTests"
+TEST[sarsal_setTraces_appends]="MDP/SARSALTests MDP/Dyna2Tests"
+TEST[offpolicy_setTraces_appends]="MDP/QLTests MDP/RetraceLTests MDP/TreeBackupLTests"
+TEST[sarsal_setDiscount_stale_gammaL]="MDP/SARSALTests MDP/Dyna2Tests"
+TEST[ql_setDiscount_not_stored]="MDP/QLearningTests MDP/DynaQTests"
+TEST[model_isTerminal_skips_action0]="MDP/ModelTests MDP/Dyna2Tests"
+TEST[ps_setQFunction_resets_values]="MDP/PrioritizedSweepingTests"
+TEST[core_general_drops_small]="UtilsCoreTests MDP/QGreedyPolicyTests"
 TEST[dyna2_reset_reversed]=Dyna2Tests; TEST[dyna2_batch_on_permanent]=Dyna2Tests; TEST[ps_generic_discounts_reward]=PrioritizedSweepingTests; TEST[dynaq_batch_wrong_pair]=DynaQTests
 names=("$@"); [ ${#names[@]} -eq 0 ] && names=(ql_sign trace_decay_twice ps_threshold swap_pop_skip eps_not_divided retrace_no_min esarsa_wrong_state dq_same_table hyst_swapped sarsal_trace_not_reset ps_abs_dropped ps_min_heap dyna2_traces_not_shared dynaq_batch_wrong_pair)
 for m in "${names[@]}"; do
@@ -55,13 +98,14 @@ if 'verdict' in e: print('   ', e['verdict'][:160])
 for b in e.get('broken',[])[:2]: print('   ', b['what'], b['name'][:60], (b.get('verdict') or '')[:120])
 PY
   done
-  t=${TEST[$m]:-}
-  if [ -n "$t" ]; then
+  for t in ${TEST[$m]:-}; do
+    case "$t" in */*|Utils*) src="$R/test/$t.cpp";; *) src="$R/test/MDP/$t.cpp";; esac
+    tn=$(basename "$t")
     LIB=$(ls -t ${AITB_CACHE:-.cache}/lib/*.a | head -1)
     mkdir -p /var/tmp/c11tmp
-    if g++ -std=c++20 -O1 -fsanitize=address,undefined -w -I"$R/include" -I"$R/test" -I/usr/include/eigen3 "$R/test/MDP/$t.cpp" "$LIB" /usr/lib/liblpsolve55.a -lcolamd -ldl -lboost_unit_test_framework -o /var/tmp/c11tmp/$t-$m 2>/tmp/c11_ut_err.txt; then
-      echo "    repo unit test $t on the mutated library: $(ASAN_OPTIONS=detect_leaks=0 timeout 600 /var/tmp/c11tmp/$t-$m 2>&1 | grep -a -o "No errors detected\|[0-9]* failure[s]* [a-z ]*detected" | head -1)"
+    if g++ -std=c++20 -O1 -fsanitize=address,undefined -w -I"$R/include" -I"$R/test" -I/usr/include/eigen3 "$src" "$LIB" /usr/lib/liblpsolve55.a -lcolamd -ldl -lboost_unit_test_framework -o /var/tmp/c11tmp/$tn-$m 2>/tmp/c11_ut_err.txt; then
+      echo "    repo unit test $t on the mutated library: $(cd "$R/test" && ASAN_OPTIONS=detect_leaks=0 timeout 600 /var/tmp/c11tmp/$tn-$m 2>&1 | grep -a -o "No errors detected\|[0-9]* failure[s]* [a-z ]*detected" | head -1)"
     else echo "    repo unit test $t: did not build"; tail -3 /tmp/c11_ut_err.txt; fi
-  fi
+  done
   git -C "$R" checkout -- .
 done
